@@ -55,6 +55,14 @@ class Env:
         self.rh.subscribe("*", lambda m: True)
         self.sh.subscribe("*", lambda m: self.got["session"].append((m.packet_id, m.name)))
         self.rh.subscribe("*", lambda m: self.got["region"].append((m.packet_id, m.name)))
+        # a subscriber by name that got its notifier from register() while it was still empty, and subscribes to it only after
+        # somebody else registered the same name again: it is a subscriber like any other
+        self.got_named = {"session": [], "region": []}
+        for lvl, mh in (("session", self.sh), ("region", self.rh)):
+            ev_ = mh.register("CompletePingCheck")
+            mh.register("CompletePingCheck")
+            mh.register("ChatFromSimulator")
+            ev_.subscribe(lambda m, lvl=lvl: self.got_named[lvl].append((m.packet_id, m.name)))
         self.seen = 0
 
     def close(self):
@@ -138,18 +146,21 @@ def bounded_arrivals(reg, tier, seed):
                         pid = rng.choice(sorted(delivered["session"]))
                         reliable = True
                     else:
-                        pid = rng.randrange(1, 12)
+                        # packet ids are any 32-bit numbers: small ones, and ones a multiple of 1000 / 1024 / 65536 apart (fewer than a
+                        # dedupe window of reliable packets ever arrives in one run, so none of them may be forgotten)
+                        pid = rng.randrange(1, 12) + rng.choice([0, 0, 0, 1000, 2000, 1024, 65536, 5000000])
                         reliable = ev != "unrel"
                     acks = ()
                     if ev != "unrel" and sends and rng.random() < 0.3:
                         a = rng.choice(sorted(sends))
                         acks = (a,)
-                    m = Message("CompletePingCheck", Block("PingID", PingID=pid), packet_id=pid, direction=Direction.IN,
+                    m = Message("CompletePingCheck", Block("PingID", PingID=pid % 256), packet_id=pid, direction=Direction.IN,
                                 flags=(PacketFlags.RELIABLE if reliable else 0), acks=acks)
                     if acks:
                         m.send_flags |= PacketFlags.ACK
                     trace.append((ev, pid, reliable, acks))
                     before = {k: len(v) for k, v in env.got.items()}
+                    before_named = {k: len(v) for k, v in env.got_named.items()}
                     try:
                         env.proto.datagram_received(ser.serialize(m), env.sim)
                     except RuntimeError:
@@ -163,6 +174,10 @@ def bounded_arrivals(reg, tier, seed):
                         fail("client/ack", f"unreliable packet acknowledged: {acked}", {"trace": [str(t) for t in trace[-6:]]})
                     for lvl in ("session", "region"):
                         n_new = len(env.got[lvl]) - before[lvl]
+                        n_named = len(env.got_named[lvl]) - before_named[lvl]
+                        if n_named != n_new and not (lvl == "region" and raise_in == "session") and raise_in is None:
+                            fail("client/dispatch", f"the by-name subscriber at {lvl} level got {n_named} deliveries where the wildcard subscriber got {n_new}",
+                                 {"trace": [str(t) for t in trace[-8:]], "level": lvl})
                         if reliable:
                             want = 0 if pid in delivered[lvl] else 1
                             if lvl == "region" and raise_in == "session":
